@@ -290,7 +290,7 @@ Qed.
 Lemma state_ok_strict_spec : forall fl cf s,
   state_ok_strict fl cf s = true -> enabled fl (cfg_max cf) s = [] ->
   quiescent s = true /\ g_k s = 0 /\
-  lin_spec (cfg_disk cf) (rev (g_hist s)) (disk (g_core s)) /\ final_agree s = true.
+  lin_spec (real_files (cfg_disk cf)) (rev (g_hist s)) (real_files (disk (g_core s))) /\ final_agree s = true.
 Proof.
   intros fl cf s H He. unfold state_ok_strict in H. rewrite He in H.
   apply andb_true_iff in H. destruct H as [H Hg]. apply andb_true_iff in H. destruct H as [Hq Hk].
@@ -301,7 +301,7 @@ Qed.
 Lemma state_ok_spec : forall fl cf s,
   state_ok fl cf s = true -> enabled fl (cfg_max cf) s = [] ->
   quiescent s = true /\
-  (g_k s = 0 -> lin_spec (cfg_disk cf) (rev (g_hist s)) (disk (g_core s)) /\ final_agree s = true).
+  (g_k s = 0 -> lin_spec (real_files (cfg_disk cf)) (rev (g_hist s)) (real_files (disk (g_core s))) /\ final_agree s = true).
 Proof.
   intros fl cf s H He. unfold state_ok in H. rewrite He in H.
   apply andb_true_iff in H. destruct H as [Hq Hg]. split; [exact Hq|].
